@@ -2,7 +2,11 @@
 // rapid so that shrinking and replay work.
 package rnd
 
-import "pgregory.net/rapid"
+import (
+	"strings"
+
+	"pgregory.net/rapid"
+)
 
 type T = rapid.T
 
@@ -28,3 +32,29 @@ func Uniform(t *T, n int, label string) int {
 func Chance(t *T, pct int, label string) bool { return Uniform(t, 100, label) >= 100-pct }
 
 func Pick(t *T, xs []string, label string) string { return xs[Uniform(t, len(xs), label)] }
+
+// RuneClasses: the code points strings are composed from, by the way printers, lexers and
+// escapers may treat them differently.
+var RuneClasses = [][]rune{
+	{'a', 'Z', '0', ' ', '_', 'n', 'u'},
+	{'"', '\\', '/', '#', ',', ']', '}', '{', '$', '!', '\''},
+	{'\t', '\n', '\r', '\b', '\f'},
+	{0x00, 0x01, 0x07, 0x0B, 0x1B, 0x1F, 0x7F},
+	{0x80, 0x85, 0x9F, 0xA0, 0xAD},
+	{0x2028, 0x2029, 0x200B, 0x200E, 0x202E, 0xFEFF, 0x061C},
+	{0xD7FF, 0xE000, 0xF8FF, 0xFFFD, 0xFFFE, 0xFFFF, 0xFDD0},
+	{0x10000, 0x1F600, 0x1D11E, 0x2F800},
+	{0xE0001, 0xE0020, 0xF0000, 0xFFFFD, 0x100000, 0x10FFFF, 0x3FFFD, 0x1FFFE},
+	{0x0301, 0x3099, 0xFE0F},
+	{0xFC, 0xDF, 0x4E16, 0x05D0},
+}
+
+// ComposeString draws a string of 1-6 code points, each from a drawn class.
+func ComposeString(t *T) string {
+	var sb strings.Builder
+	for i, n := 0, Intn(t, 1, 6, "strLen"); i < n; i++ {
+		cl := RuneClasses[Uniform(t, len(RuneClasses), "runeClass")]
+		sb.WriteRune(cl[Uniform(t, len(cl), "rune")])
+	}
+	return sb.String()
+}
